@@ -183,6 +183,12 @@ def assign_target(E, target, val, st):
         elif isinstance(val, SVal) and isinstance(val.ty, TTuple):
             dt = E.U.dt(val.ty)
             items = [SVal(dt.accessor(0, i)(val.t), e) for i, e in enumerate(val.ty.elems)]
+        elif isinstance(val, SVal) and isinstance(val.ty, TVal):
+            # namedtuple-like value record: unpacks into its fields in declaration order
+            dt = E.U.dt(val.ty)
+            items = [SVal(dt.accessor(0, i)(val.t), fty) for i, fty in enumerate(E.U.all_fields(val.ty.cls).values())]
+            if len(items) != len(target.elts):
+                raise OutsideSubset("unpack arity")
         elif isinstance(val, SVal) and isinstance(val.ty, TList):
             n = len(target.elts)
             st = E.guard(st, Q.Length(val.t) == n, ValueError, "unpack: wrong number of values")
@@ -520,11 +526,13 @@ def _loop_ordinal(E, node, st):
     fdef = st.env.get("__fdef__")
     if fdef is None:
         return None
+    # `for` loops are numbered 0, 1, ... in source order; `while` loops separately as "w0", "w1", ... (so that adding one
+    # kind of loop does not renumber the invariants of the other)
     k = 0
     for n in ast.walk(fdef.obj):
-        if isinstance(n, (ast.For, ast.While)):
+        if isinstance(n, type(node)):
             if n is node:
-                return k
+                return k if isinstance(node, ast.For) else f"w{k}"
             k += 1
     return None
 
@@ -676,7 +684,7 @@ def _sym_for(E, node, st, bs, guard, ev, idx, n, invs, fname, ordinal, itv=None)
     body_st = st.copy()
     havoc(body_st, "it")
     k = z3.Int(E.fresh_name("k"))
-    nn = n if (z3.is_app(n) and n.decl().name() == "len") else z3.If(n < 0, 0, n)
+    nn = n if (z3.is_app(n) and n.decl().name().startswith("len!")) else z3.If(n < 0, 0, n)
     body_st.assume(z3.And(0 <= k, k < nn))
     for j, g in inv_goal(body_st, k):
         body_st.assume(g)
@@ -723,13 +731,17 @@ def _discover(E, node, st, i, guard, ev):
     """run the body once with obligations suppressed to learn what it may modify"""
     from .comp import bind_target
     s = st.copy()
-    s.assume(guard)
+    is_while = isinstance(node, ast.While)
+    if not is_while:
+        s.assume(guard)
     E.suppress += 1
     saved_sink = E.sink
     E.sink = []
     saved_paths = E.paths
-    names = _assigned_names(node.body) | _assigned_names([ast.Assign(targets=[node.target], value=ast.Constant(0), lineno=0)])
-    rebound = _assigned_names(node.body, strict=True) | _assigned_names([ast.Assign(targets=[node.target], value=ast.Constant(0), lineno=0)], strict=True)
+    tgt = [] if is_while else [ast.Assign(targets=[node.target], value=ast.Constant(0), lineno=0)]
+    extra = [ast.Expr(value=node.test)] if is_while else []
+    names = _assigned_names(node.body + extra) | _assigned_names(tgt)
+    rebound = _assigned_names(node.body + extra, strict=True) | _assigned_names(tgt, strict=True)
     # a name that is only the root of an in-place mutation is havoced only if it holds a container VALUE (objects are
     # references: their fields live in the heap, which is havoced separately)
     names = {n for n in names if n in rebound or not (isinstance(st.env.get(n), SVal) and not _container(st.env[n].ty))}
@@ -742,6 +754,14 @@ def _discover(E, node, st, i, guard, ev):
             outs = []
             for c in cur:
                 c.status = None
+                if is_while:
+                    for s1, cv in E.ev(node.test, c.copy()):
+                        for br, s2 in E.branch(s1, E.truthy(cv, s1)):
+                            if br:
+                                outs.extend(exec_block(E, node.body, s2))
+                            else:
+                                outs.append(s2)
+                    continue
                 for s2 in assign_target(E, node.target, ev, c.copy()):
                     outs.extend(exec_block(E, node.body, s2))
             outs += E.sink
@@ -760,7 +780,7 @@ def _discover(E, node, st, i, guard, ev):
                 for key, arr in o.heap.items():
                     if key not in st.heap or st.heap[key] is not arr:
                         heap_mods.add(key)
-                        objs = _store_chain(arr, st.heap.get(key), [i])
+                        objs = _store_chain(arr, st.heap.get(key), [i] if i is not None else [])
                         if objs is None:
                             heap_objs[key] = None
                         elif heap_objs.get(key, []) is not None:
@@ -833,7 +853,78 @@ def _wf_value(E, key, v):
 
 
 def x_While(E, node, st):
-    raise OutsideSubset("while loop")
+    """`while test: body` with an inductive invariant from the contract (default: True, i.e. havoc of everything one
+    iteration can change, learnt by a suppressed discovery run).  PARTIAL correctness: termination is not an obligation."""
+    fname = st.env["__fname__"].obj if "__fname__" in st.env else E.cur
+    contract = E.reg.contracts.get(fname)
+    ordinal = _loop_ordinal(E, node, st)
+    invs = (contract.invariants.get(ordinal, []) if contract else [])
+    lineno = node.lineno
+    E.assumptions.add("while loops: partial correctness (termination is not an obligation)")
+    mods, heap_mods, ghost_mods, tainted, heap_objs = _discover(E, node, st, None, None, None)
+
+    def inv_goal(s):
+        return [(j, eval_spec(E, e, s, {}, old=s.old)) for j, e in enumerate(invs)]
+
+    for j, g in inv_goal(st):
+        E.oblige(st, f"loop{ordinal}:inv-init#{j}", g, lineno=lineno, func=fname)
+    exits = []
+    for tag in ("it", "after"):
+        s0 = st.copy()
+        _havoc_loop(E, s0, tag, mods, heap_mods, ghost_mods, tainted, heap_objs)
+        for j, g in inv_goal(s0):
+            s0.assume(g)
+        for s1, c in E.ev(node.test, s0):
+            for br, s2 in E.branch(s1, E.truthy(c, s1)):
+                narrow(E, node.test, br, s2)
+                if tag == "it" and br:
+                    for o in exec_block(E, node.body, s2):
+                        if o.status is None or o.status == ("continue",):
+                            o.status = None
+                            for j, g in inv_goal(o):
+                                E.oblige(o, f"loop{ordinal}:inv-step#{j}", g, lineno=lineno, func=fname)
+                        elif o.status == ("break",):
+                            o.status = None
+                            o.note(f"while loop at line {lineno}: break")
+                            exits.append(o)
+                        else:
+                            exits.append(o)
+                elif tag == "after" and not br:
+                    s2.note(f"while loop at line {lineno}: condition false")
+                    if node.orelse:
+                        exits.extend(exec_block(E, node.orelse, s2))
+                    else:
+                        exits.append(s2)
+    yield from exits
+
+
+def _havoc_loop(E, s, tag, mods, heap_mods, ghost_mods, tainted, heap_objs):
+    for name, ty in mods.items():
+        if ty is None:
+            s.env.pop(name, None)
+            continue
+        old = s.env.get(name)
+        nv = E.fresh(ty, f"{tag}_{name}")
+        s.env[name] = SVal(nv.t, nv.ty, old.origin if isinstance(old, SVal) else None)
+    for key in heap_mods:
+        if key in s.heap:
+            objs = heap_objs.get(key)
+            if objs is not None:
+                arr = s.heap[key]
+                for o in objs:
+                    fv = z3.Const(E.fresh_name(f"{tag}_{key[0]}"), arr.range())
+                    _wf_value(E, key, fv)
+                    arr = z3.Store(arr, o, fv)
+                s.heap[key] = arr
+                continue
+            s.heap[key] = z3.Const(E.fresh_name(f"H{tag}_{key[0]}"), s.heap[key].sort())
+            from .calls import _wf_heap_key
+            _wf_heap_key(E, s, key)
+    for g in ghost_mods:
+        s.ghost[g] = E.fresh(s.ghost[g].ty, f"{tag}_ghost_{g}")
+    if tainted:
+        havoc_all(E, s)
+        s.tainted.extend(tainted)
 
 
 def x_FunctionDef(E, node, st):
